@@ -18,7 +18,39 @@ class RGen(minif.BodyGen):
     keeps as CodeBlocks (expression CodeBlocks: array constructors with implied DO;
     statement CodeBlocks: FORALL, PRINT)."""
     codeblocks = False
+    calls = False
     p_while = 0.08
+
+    def loop_header(self, v, live):
+        """as BodyGen, plus bounds that depend on an enclosing loop variable"""
+        r = self.rng
+        if live and r.random() < 0.3:
+            o = r.choice(live)
+            return r.choice([f"do {v} = {o}, {o}+{r.randint(1, 2)}", f"do {v} = 0, {o}",
+                             f"do {v} = {o}, {r.randint(4, 8)}", f"do {v} = {o}+1, {o}-1"])
+        return super().loop_header(v, live)
+
+    def covering_pair(self, live, ind):
+        """`x(sub) = <expr without x>` followed by a read of the same element"""
+        r = self.rng
+        x = r.choice(self.arrays1)
+        others = [a for a in self.arrays1 if a != x]
+        y = r.choice(others)
+        sub = self.subscript(live)
+        saved = self.arrays1
+        self.arrays1 = others
+        try:
+            rhs = self.expr(live, 1)
+        finally:
+            self.arrays1 = saved
+        return [f"{ind}{x}({sub}) = {rhs}", f"{ind}{y}({sub}) = {y}({sub}) + {x}({sub})"]
+
+    def call_stmt(self, live, ind):
+        r = self.rng
+        a = r.choice([x for x in self.arrays1 if "%" not in x] or ["a"])
+        s = r.choice([x for x in self.scalars if "%" not in x] or ["s0"])
+        b = r.choice(self.arrays1)
+        return [f"{ind}call bump({a}, {s}, {b}({r.randint(0, 5)}))"]
 
     def assign(self, live, ind="  "):
         r = self.rng
@@ -86,6 +118,10 @@ class RGen(minif.BodyGen):
             x = r.random()
             if x < self.p_while and depth < 2:
                 out += self.while_loop(live, ind, depth)
+            elif x > 0.93 and len(self.arrays1) >= 2:
+                out += self.covering_pair(live, ind)
+            elif self.calls and x > 0.86:
+                out += self.call_stmt(live, ind)
             elif self.codeblocks and x < self.p_while + 0.12:
                 out += self.codeblock_stmt(live, ind)
             else:
@@ -93,21 +129,59 @@ class RGen(minif.BodyGen):
         return out
 
 
-def gen_program(rng, nstmts, codeblocks=False):
+BUMP = """subroutine bump(x, y, z)
+  integer, dimension(-14:26) :: x
+  integer :: y, z
+  x(1) = x(2) + y
+  y = y + z
+  z = 3
+end subroutine bump
+"""
+
+STRUCT_DECL = ["  type :: grid_t", f"    integer, dimension({minif.A_LO}:{minif.A_HI}) :: d",
+               f"    integer, dimension({minif.A_LO}:{minif.A_HI}) :: e", "    integer :: n", "  end type grid_t"]
+
+
+class RProg(minif.Prog):
+    """Prog with an optional structure `g` (members g%d, g%e arrays, g%n scalar) and an optional
+    external subroutine `bump` (unknown intent: every argument is in+out for PSyclone)"""
+    struct = False
+    calls = False
+
+    def decls(self):
+        out = list(STRUCT_DECL) if self.struct else []
+        sc = [s for s in self.scalars + self.loopvars if "%" not in s]
+        out.append("  integer :: " + ", ".join(sc))
+        for a in self.arrays1:
+            if "%" not in a:
+                out.append(f"  integer, dimension({minif.A_LO}:{minif.A_HI}) :: {a}")
+        for m in self.arrays2:
+            out.append(f"  integer, dimension({minif.M_LO}:{minif.M_HI},{minif.M_LO}:{minif.M_HI}) :: {m}")
+        if self.struct:
+            out.append("  type(grid_t) :: g")
+        return out
+
+
+def gen_program(rng, nstmts, codeblocks=False, struct=False, calls=False):
     scalars = ["s0", "s1", "t"][: rng.randint(1, 3)]
     arrays1 = ["a", "b", "c"][: rng.randint(2, 3)]
     arrays2 = ["m"] if rng.random() < 0.3 else []
+    if struct:
+        scalars = scalars + ["g%n"]
+        arrays1 = arrays1[:2] + ["g%d", "g%e"]
     loopvars = ["i", "j", "k"]
     init = minif.gen_init(rng, scalars, arrays1, arrays2) + ["  w = 0"]
     bg = RGen(rng, scalars, arrays1, arrays2, loopvars)
-    bg.codeblocks = codeblocks
+    bg.codeblocks, bg.calls = codeblocks, calls
     body = bg.block([], nstmts)
-    return minif.Prog(scalars, arrays1, arrays2, loopvars + ["ii", "jj", "w"], init, body)
+    prog = RProg(scalars, arrays1, arrays2, loopvars + ["ii", "jj", "w"], init, body)
+    prog.struct, prog.calls = struct, calls
+    return prog
 
 
 def source_of(prog, body=None):
     lines = ["program p"] + prog.decls() + prog.init + (prog.body if body is None else body) + ["end program p"]
-    return "\n".join(lines) + "\n"
+    return "\n".join(lines) + "\n" + (BUMP if getattr(prog, "calls", False) else "")
 
 
 def n_init_nodes(prog):
@@ -118,37 +192,98 @@ def n_init_nodes(prog):
 # PSyIR -> RegionData.RStmt S-expressions (MiniF exporter + WhileLoop; `access_only` maps what
 # MiniF cannot express to something with the same ACCESSES for the model of the analyses)
 
+def member_ref(node, names, access_only):
+    """StructureReference `g%d(i)` / `g%n` -> indexed access of the member's own id (a member
+    is never a scalar for PSyclone's clause computation; a scalar member uses index 0)"""
+    sig, indices = node.get_signature_and_indices()
+    idx = [rexport_expr(i, names, access_only) for i in indices[-1]]
+    if any(indices[:-1][k] for k in range(len(indices) - 1)):
+        raise minif.Unsupported("array of structures")
+    mid = names.id(str(sig))
+    if len(idx) == 0:
+        return mid, [["lit", 0]]
+    if len(idx) > 2:
+        raise minif.Unsupported("rank")
+    return mid, idx
+
+
 def rexport_expr(node, names, access_only=False):
     from psyclone.psyir import nodes as N
-    if not access_only:
-        return minif.export_expr(node, names)
-    if isinstance(node, N.CodeBlock):
+    ao = access_only
+    if isinstance(node, N.StructureReference):
+        mid, idx = member_ref(node, names, ao)
+        return [f"idx{len(idx)}", mid] + idx
+    if isinstance(node, N.CodeBlock) and ao:
         return ["lit", 0]                      # CodeBlock.reference_accesses: nothing
-    if isinstance(node, N.Range):
+    if isinstance(node, N.Range) and ao:
         out = ["lit", 0]
         for c in node.children:
             out = ["bin", "add", out, rexport_expr(c, names, True)]
         return out
     if isinstance(node, N.IntrinsicCall):
-        if node.intrinsic.name.upper() in ("LBOUND", "UBOUND", "SIZE"):
-            return ["lit", 0]
-        out = ["lit", 0]
-        for c in node.arguments:
-            out = ["bin", "add", out, rexport_expr(c, names, True)]
-        return out
-    if isinstance(node, (N.BinaryOperation, N.UnaryOperation)):
-        out = ["lit", 0]
-        for c in node.children:
-            out = ["bin", "add", out, rexport_expr(c, names, True)]
-        return out
+        name = node.intrinsic.name.upper()
+        args = [rexport_expr(a, names, ao) for a in node.arguments] if not (ao and name in ("LBOUND", "UBOUND", "SIZE")) else []
+        if name in minif._INTR2 and len(args) >= 2 and (name in ("MIN", "MAX") or len(args) == 2):
+            out = args[0]
+            for a in args[1:]:
+                out = ["bin", minif._INTR2[name], out, a]
+            return out
+        if name == "ABS" and len(args) == 1:
+            return ["un", "abs", args[0]]
+        if name in minif._IDENT and len(args) == 1:
+            return args[0]
+        if ao:
+            out = ["lit", 0]
+            for a in args:
+                out = ["bin", "add", out, a]
+            return out
+        raise minif.Unsupported("intrinsic " + name)
+    if isinstance(node, N.BinaryOperation):
+        op = node.operator.name
+        if op not in minif._BIN:
+            if not ao:
+                raise minif.Unsupported("operator " + op)
+            op = "ADD"
+        return ["bin", minif._BIN[op], rexport_expr(node.children[0], names, ao), rexport_expr(node.children[1], names, ao)]
+    if isinstance(node, N.UnaryOperation):
+        op = node.operator.name
+        if op not in minif._UN:
+            raise minif.Unsupported("operator " + op)
+        return ["un", minif._UN[op], rexport_expr(node.children[0], names, ao)]
     if isinstance(node, N.ArrayReference):
-        idx = [rexport_expr(i, names, True) for i in node.indices]
-        if len(idx) == 1:
-            return ["idx1", names.id(node.name), idx[0]]
-        if len(idx) == 2:
-            return ["idx2", names.id(node.name), idx[0], idx[1]]
-        raise minif.Unsupported("rank")
-    return minif.export_expr(node, names)
+        idx = node.indices
+        if (any(isinstance(i, N.Range) for i in idx) and not ao) or not 1 <= len(idx) <= 2:
+            raise minif.Unsupported("array access " + node.name)
+        return [f"idx{len(idx)}", names.id(node.name)] + [rexport_expr(i, names, ao) for i in idx]
+    if type(node) is N.Reference:
+        if getattr(names, "rank", {}).get(node.name.lower(), 0) > 0:
+            if not ao:
+                raise minif.Unsupported("whole-array reference")
+            return ["idx1", names.id(node.name), ["lit", 0]]
+        return ["var", names.id(node.name)]
+    return minif.export_expr(node, names)        # literals (and errors)
+
+
+def call_accesses(node, names):
+    """non-pure Call: every argument is READWRITE = READ then WRITE for all queries used"""
+    from psyclone.psyir import nodes as N
+    out = []
+    for arg in node.arguments:
+        if isinstance(arg, N.StructureReference):
+            mid, idx = member_ref(arg, names, True)
+            out.append([f"store{len(idx)}", mid] + idx + [[f"idx{len(idx)}", mid] + idx])
+        elif isinstance(arg, N.ArrayReference):
+            idx = [rexport_expr(i, names, True) for i in arg.indices]
+            out.append([f"store{len(idx)}", names.id(arg.name)] + idx + [[f"idx{len(idx)}", names.id(arg.name)] + idx])
+        elif type(arg) is N.Reference:
+            x = names.id(arg.name)
+            if getattr(names, "rank", {}).get(arg.name.lower(), 0) > 0:
+                out.append(["store1", x, ["lit", 0], ["idx1", x, ["lit", 0]]])
+            else:
+                out.append(["assign", x, ["var", x]])
+        else:   # an expression argument is only read
+            out.append(["ite", rexport_expr(arg, names, True), ["skip"], ["skip"]])
+    return ["seqs"] + out
 
 
 def rexport_stmt(node, names, access_only=False):
@@ -168,10 +303,19 @@ def rexport_stmt(node, names, access_only=False):
         return ["loop", names.id(node.variable.name), rexport_expr(node.start_expr, names, ao),
                 rexport_expr(node.stop_expr, names, ao), rexport_expr(node.step_expr, names, ao),
                 rexport_stmt(node.loop_body, names, ao)]
-    if isinstance(node, N.Assignment) and ao:
-        lhs, rhs = node.lhs, rexport_expr(node.rhs, names, True)
+    if isinstance(node, N.Call) and not isinstance(node, N.IntrinsicCall):
+        if not ao:
+            raise minif.Unsupported("call")
+        return call_accesses(node, names)
+    if isinstance(node, N.Assignment):
+        lhs, rhs = node.lhs, rexport_expr(node.rhs, names, ao)
+        if isinstance(lhs, N.StructureReference):
+            mid, idx = member_ref(lhs, names, ao)
+            return [f"store{len(idx)}", mid] + idx + [rhs]
         if isinstance(lhs, N.ArrayReference):
-            idx = [rexport_expr(i, names, True) for i in lhs.indices]
+            if any(isinstance(i, N.Range) for i in lhs.indices) and not ao:
+                raise minif.Unsupported("array assignment")
+            idx = [rexport_expr(i, names, ao) for i in lhs.indices]
             if len(idx) == 1:
                 return ["store1", names.id(lhs.name), idx[0], rhs]
             if len(idx) == 2:
@@ -200,6 +344,22 @@ def rank_of(datatype):
     return 0
 
 
+def struct_components(datatype):
+    """[(component name, rank)] of a derived type (StructureType, or its declaration text when
+    PSyclone keeps it as UnsupportedFortranType)"""
+    from psyclone.psyir.symbols import StructureType, UnsupportedFortranType
+    if isinstance(datatype, StructureType):
+        return [(n, rank_of(c.datatype)) for n, c in datatype.components.items()]
+    out = []
+    if isinstance(datatype, UnsupportedFortranType):
+        for line in datatype.declaration.splitlines():
+            m = re.match(r"\s*integer(.*)::\s*(\w+)\s*$", line, re.I)
+            if m:
+                d = re.search(r"dimension\s*\(([^)]*)\)", m.group(1), re.I)
+                out.append((m.group(2).lower(), d.group(1).count(",") + 1 if d else 0))
+    return out
+
+
 class Parsed:
     """A parsed program: the routine, the name table (ids for every declared variable first),
     the declared cells, and exporters for prefix / region."""
@@ -207,14 +367,36 @@ class Parsed:
     def __init__(self, src, n_init):
         from psyclone.psyir.symbols import DataSymbol, ArrayType
         self.src, self.n_init = src, n_init
-        self.psyir, self.routine = minif.parse_program(src)
+        from psyclone.psyir.symbols import StructureType, DataTypeSymbol
+        from psyclone.psyir.nodes import Routine
+        self.psyir, _ = minif.parse_program(src)
+        self.routine = [r for r in self.psyir.walk(Routine) if r.name.lower() == "p"][0]
         self.names = minif.Names()
         self.rank = {}
+        self.parents = {}        # member name -> parent structure name
         for sym in self.routine.symbol_table.symbols:
             if isinstance(sym, DataSymbol):
-                self.names.id(sym.name)
-                self.rank[sym.name.lower()] = rank_of(sym.datatype)
+                dt = sym.datatype
+                if isinstance(dt, DataTypeSymbol):
+                    self.names.id(sym.name)
+                    self.rank[sym.name.lower()] = -1           # no cells of its own
+                    for cname, crank in struct_components(dt.datatype):
+                        full = f"{sym.name}%{cname}".lower()
+                        self.names.id(full)
+                        self.rank[full] = crank
+                        self.parents[full] = sym.name.lower()
+                else:
+                    self.names.id(sym.name)
+                    self.rank[sym.name.lower()] = rank_of(dt)
+        self.names.rank = self.rank
         self.body = self.routine.children[n_init:]
+
+    def routine_of(self, psyir):
+        from psyclone.psyir.nodes import Routine
+        return [r for r in psyir.walk(Routine) if r.name.lower() == "p"][0]
+
+    def parent_pairs(self):
+        return [[self.vid(m), self.vid(p)] for m, p in sorted(self.parents.items())]
 
     def vid(self, name):
         return self.names.id(name)
@@ -225,6 +407,8 @@ class Parsed:
     def cells(self, name):
         r = self.rank[name]
         x = self.vid(name)
+        if r < 0:
+            return []
         if r == 0:
             return [(x,)]
         if r == 1:
@@ -278,7 +462,7 @@ def real_extract_lists(parsed, i, j):
     from psyclone.psyir.transformations import ExtractTrans, TransformationError
     from psyclone.psyir.nodes import Routine
     p2 = parsed.psyir.copy()
-    r2 = p2.walk(Routine)[0]
+    r2 = parsed.routine_of(p2)
     try:
         ExtractTrans().apply(parsed.region_nodes(i, j, r2))
     except TransformationError:
@@ -291,11 +475,11 @@ def real_extract_lists(parsed, i, j):
             phase = 1
         elif "% PostStart" in s:
             phase = 2
-        m = re.search(r'ProvideVariable\("([a-z0-9_]+)",\s*([a-z0-9_]+)\)', s, re.I)
+        m = re.search(r'ProvideVariable\("([a-z0-9_%]+)",\s*([a-z0-9_% ]+)\)', s, re.I)
         if m and phase == 1:
-            pre.append(m.group(2).lower())
+            pre.append(m.group(2).lower().replace(" ", ""))
         elif m and phase == 2:
-            post.append(m.group(2).lower())
+            post.append(m.group(2).lower().replace(" ", ""))
     return sorted(pre), sorted(post)
 
 
@@ -306,7 +490,7 @@ def real_acc_clauses(parsed, i, j, enter_data=False):
     from psyclone.psyir.nodes import Routine, ACCDataDirective, ACCEnterDataDirective
     from psyclone.psyir.backend.fortran import FortranWriter
     p2 = parsed.psyir.copy()
-    r2 = p2.walk(Routine)[0]
+    r2 = parsed.routine_of(p2)
     if enter_data:
         class _Enter(ACCEnterDataDirective):
             def data_on_device(self, parent):
@@ -350,6 +534,13 @@ def has_codeblock(nodes):
     return any(n.walk(CodeBlock) for n in nodes)
 
 
+def non_minif(nodes):
+    """the region contains something the MiniF interpreter cannot execute: a CodeBlock or a
+    call to a routine of unknown intent (evaluated with the gfortran replay oracle instead)"""
+    from psyclone.psyir.nodes import CodeBlock, Call, IntrinsicCall
+    return any(c for n in nodes for c in n.walk((CodeBlock, Call)) if not isinstance(c, IntrinsicCall))
+
+
 def access_items(parsed, nodes):
     """model items for the ACCESS model of a region that contains CodeBlocks: a top-level
     statement CodeBlock (or Return) is `(x)`; every other statement is exported with the
@@ -378,12 +569,18 @@ def fortran_pieces(parsed):
     from psyclone.psyir.nodes import Routine
     w = FortranWriter()
     p2 = parsed.psyir.copy()
-    r2 = p2.walk(Routine)[0]
+    r2 = parsed.routine_of(p2)
     for c in list(r2.children):
         c.detach()
     text = w(r2)
     head = text[: text.lower().rindex("end program")]
     return head, [w(c) for c in parsed.routine.children]
+
+
+def other_units(parsed):
+    from psyclone.psyir.backend.fortran import FortranWriter
+    from psyclone.psyir.nodes import Routine
+    return "".join(FortranWriter()(r) for r in parsed.psyir.walk(Routine) if r.name.lower() != "p")
 
 
 def gfortran_replay(parsed, i, j, real_in, real_out, delta=1):
@@ -392,7 +589,8 @@ def gfortran_replay(parsed, i, j, real_in, real_out, delta=1):
     oracle is not applicable (compile error / original run fails)."""
     head, stmts = fortran_pieces(parsed)
     k0 = parsed.n_init + i
-    names = sorted(parsed.rank)
+    names = sorted(n for n in parsed.rank if parsed.rank[n] >= 0)
+    tail = "end program p\n" + other_units(parsed)
 
     def program(perturb):
         body = stmts[:k0]
@@ -401,11 +599,11 @@ def gfortran_replay(parsed, i, j, real_in, real_out, delta=1):
             body = body + [f"  {n} = {n} + {delta if parsed.rank[n] == 0 else 1000}\n" for n in names if n not in real_in]
         body = body + stmts[k0: parsed.n_init + j]
         out = "".join(f"  print *, {n}\n" for n in names)
-        return head + "".join(body) + "".join(snap) + out + "end program p\n"
+        return head + "".join(body) + "".join(snap) + out + tail
 
     def before_program():
         out = "".join(f"  print *, {n}\n" for n in names)
-        return head + "".join(stmts[:k0]) + out + "end program p\n"
+        return head + "".join(stmts[:k0]) + out + tail
 
     def run(src):
         st, o = minif.gfortran_run(src, flags=("-fcheck=bounds",))
@@ -467,8 +665,11 @@ def partial_first_writes(nodes):
         node = acc[0].node
         stmt = node if isinstance(node, Loop) else node.ancestor(Assignment, include_self=True)
         name = str(sig)
-        sym = nodes[0].scope.symbol_table.lookup(name)
-        if rank_of(sym.datatype) > 0:
+        if "%" in name:
+            is_arr = bool(node.get_signature_and_indices()[1][-1]) if hasattr(node, "get_signature_and_indices") else True
+        else:
+            is_arr = rank_of(nodes[0].scope.symbol_table.lookup(name).datatype) > 0
+        if is_arr:
             out[name] = "array element write"
         elif not any(stmt is n for n in nodes):
             out[name] = "write nested in a conditional or a loop body"
